@@ -41,7 +41,9 @@ Section Final.
   Definition pre_step (st : state) (t : nat) : state :=
     let k := task_of p t in
     if t_leaf k && Nat.eqb (t_need k) 0
-    then match t_pin k with Some s => place st t (s, s) | None => st end else st.
+    then match t_pin k with
+         | Some s => if s <=? p_upper p then place st t (s, s) else st
+         | None => st end else st.
 
   Lemma prepass_spec : forall l st,
     NoDup l -> bookings st = [] -> (forall t, In t l -> leaf_dates st t = None) ->
@@ -54,16 +56,18 @@ Section Final.
     induction l as [|u tl IH]; intros st Hd Hb Hn; cbn [fold_left]; [split; [exact Hb|intros; now left]|].
     inversion Hd as [|? ? Hu Htl]; subst.
     assert (Hb1 : bookings (pre_step st u) = []).
-    { unfold pre_step. cbn zeta. destruct (t_leaf _ && _); [|exact Hb]. destruct (t_pin _); exact Hb. }
+    { unfold pre_step. cbn zeta. destruct (t_leaf _ && _); [|exact Hb]. destruct (t_pin _) as [s|]; [|exact Hb].
+      destruct (s <=? p_upper p); exact Hb. }
     assert (Hn1 : forall t, In t tl -> leaf_dates (pre_step st u) t = None).
     { intros t Ht. unfold pre_step. cbn zeta. destruct (t_leaf _ && _); [|apply Hn; now right].
-      destruct (t_pin _); [|apply Hn; now right]. rewrite leaf_dates_place_other; [apply Hn; now right|].
-      intros ->. contradiction. }
+      destruct (t_pin _) as [s|]; [|apply Hn; now right]. destruct (s <=? p_upper p); [|apply Hn; now right].
+      rewrite leaf_dates_place_other; [apply Hn; now right|]. intros ->. contradiction. }
     destruct (IH _ Htl Hb1 Hn1) as [A B]. split; [exact A|].
     intros t d Ht. destruct (B t d Ht) as [B1|B1]; [|now right].
     unfold pre_step in B1. cbn zeta in B1.
     destruct (t_leaf (task_of p u) && Nat.eqb (t_need (task_of p u)) 0) eqn:E; [|now left].
     destruct (t_pin (task_of p u)) as [s|] eqn:Ep; [|now left].
+    destruct (s <=? p_upper p); [|now left].
     destruct (Nat.eq_dec t u) as [->|Hne].
     - rewrite leaf_dates_place_same in B1. injection B1 as <-. right. exists s.
       apply andb_true_iff in E as [_ E]. apply Nat.eqb_eq in E. auto.
